@@ -5,13 +5,17 @@ run_t1(ctx):
      source of the repository under test (vlib.REPO).  The translator turns a
      fixed list of small straight-line Go functions (ot.Label.{Equal,S,SetS,
      Mul2,Mul4,Xor,And,GetData,SetData,Bit,SetBit}, ot.NewTweak,
-     circuit.{idxUnary,idx,makeK,makeKHalf,encrypt,decrypt,encryptHalf,
-     LabelForBit}) into Lean definitions (namespace Mpc.Gen).  A construct
+     ot.{clmul64,mul128Generic}, circuit.{idxUnary,idx,makeK,makeKHalf,
+     encrypt,decrypt,encryptHalf,LabelForBit,BitFromLabel,bitLen}) into Lean
+     definitions (namespace Mpc.Gen).  A construct
      outside its subset, or a missing function, is a translator FAILURE = a
      broken obligation, never a skip.
   2. installs the result as lean/MpcVerif/Gen/Leaf.lean and proves
      MpcVerif.Proofs.GenTie (every generated definition = the hand-written
-     model on the joined 128-bit value); each tie theorem is one obligation.
+     model on the joined 128-bit value) and one further module per property
+     whose model a leaf function belongs to (GenTieC16: BitFromLabel, GenTieC15:
+     clmul64/mul128Generic, GenTieC13: bitLen); each tie theorem is one
+     obligation and a failing module names the property concerned.
 
 Gen/Leaf.lean is a shared file that depends on VERIF_REPO, so installing it,
 `lake build` and the axiom audit all happen under ONE hold of the project lock
@@ -39,19 +43,32 @@ TIES = ["Mpc.GenTie." + t for t in [
     "tie_encrypt_nat", "tie_decrypt_nat", "tie_encryptHalf_nat",
 ]]
 
-N_FUNCS = 20
+# Ties of leaf functions whose hand-written model belongs to ANOTHER property: one Lean module per owning
+# property, so that a failure names the property whose model no longer matches the Go source.
+EXTRA = [
+    ("MpcVerif.Proofs.GenTieC16", "C01/C16", "Model/Garble.lean WireL.bitFrom: circuit.BitFromLabel",
+     ["Mpc.GenTie.tie_BitFromLabel"]),
+    ("MpcVerif.Proofs.GenTieC15", "C15", "Model/Clmul.lean: ot.clmul64, ot.mul128Generic",
+     ["Mpc.GenTie.tie_clmul64", "Mpc.GenTie.tie_mul128Generic"]),
+    ("MpcVerif.Proofs.GenTieC13", "C13", "Model/IoArg.lean: circuit.bitLen",
+     ["Mpc.GenTie.tie_bitLen"]),
+]
+ALL_TIES = TIES + [t for e in EXTRA for t in e[3]]
+
+N_FUNCS = 24
 
 
-def _failing_theorems(log):
-    """Names of the GenTie.lean declarations in which the build log reports errors."""
-    src = os.path.join(vlib.LEAN, MODULE.replace(".", "/") + ".lean")
+def _failing_theorems(log, module=MODULE):
+    """Names of the declarations of the tie module in which the build log reports errors."""
+    src = os.path.join(vlib.LEAN, module.replace(".", "/") + ".lean")
+    base = re.escape(os.path.basename(src))
     decl = []                       # (first line, name)
     for i, line in enumerate(open(src, errors="replace").read().split("\n")):
         m = re.match(r"(?:theorem|def|example|abbrev)\s*(\S*)", line)
         if m:
             decl.append((i + 1, m.group(1) if m.group(1) not in ("", ":") else "example@%d" % (i + 1)))
     names = []
-    for m in re.finditer(r"error: \S*GenTie\.lean:(\d+):\d+", log):
+    for m in re.finditer(r"error: \S*/" + base + r":(\d+):\d+", log):
         ln = int(m.group(1))
         owner = [n for (l, n) in decl if l <= ln]
         if owner and owner[-1] not in names:
@@ -60,7 +77,7 @@ def _failing_theorems(log):
 
 
 def _fail_ties(ctx, why):
-    for t in TIES:
+    for t in ALL_TIES:
         ctx.oblige("theorem %s" % t, False, why)
 
 
@@ -101,20 +118,30 @@ def run_t1(ctx):
                 logs.append(r[1])
                 return r
             ctx.lake = lake_locked
-            nb = len(ctx.broken)
+            def prove(module, ties, what):
+                nb = len(ctx.broken)
+                del logs[:]
+                ok = ctx.prove(module, ties)
+                for b in ctx.broken[nb:]:
+                    if b["obligation"].startswith("lake build"):
+                        bad = _failing_theorems("\n".join(logs), module)
+                        ctx.oblige("T1 ties still proved for the regenerated definitions (%s)" % what, False,
+                                   "proofs that fail against Gen/Leaf.lean regenerated from %s: %s\n"
+                                   "(the Go function behind each of them no longer matches the model)"
+                                   % (vlib.REPO, ", ".join(bad) or "see the lake build log"))
+                        ctx.broken.insert(nb, ctx.broken.pop())     # show this summary first
+                        break
+                return ok
             try:
-                proved = ctx.prove(MODULE, TIES)
+                proved = prove(MODULE, TIES, "label primitives and garbling leaves; models of C01/C16")
+                for module, prop, what, ties in EXTRA:
+                    ok = prove(module, ties, "model of %s, %s" % (prop, what))
+                    ctx.oblige("T1 tie of the Go leaf functions to the %s model (%s)" % (prop, what), ok,
+                               "the %s model and the current Go source of these functions no longer agree "
+                               "(or the model file of %s does not build)" % (prop, prop))
+                    proved = proved and ok
             finally:
                 del ctx.lake
-            for b in ctx.broken[nb:]:
-                if b["obligation"].startswith("lake build"):
-                    bad = _failing_theorems("\n".join(logs))
-                    ctx.oblige("T1 ties still proved for the regenerated definitions", False,
-                               "proofs that fail against Gen/Leaf.lean regenerated from %s: %s\n"
-                               "(the Go function behind each of them no longer matches the model)"
-                               % (vlib.REPO, ", ".join(bad) or "see the lake build log"))
-                    ctx.broken.insert(nb, ctx.broken.pop())     # show this summary first
-                    break
         finally:
             fcntl.flock(lock, fcntl.LOCK_UN)
             lock.close()
@@ -127,7 +154,7 @@ def run_t1(ctx):
         "regenerated_from": vlib.REPO,
         "changed_since_last_run": old != new,
         "function_source_hashes": hashes,
-        "tie_theorems": len(TIES),
+        "tie_theorems": len(ALL_TIES),
     }
     if len(ctx.samples) < 6:
         ctx.samples.append({"t1_tie": "Mpc.GenTie.tie_makeK", "go": "circuit.makeK", "source_sha": hashes.get("circuit.makeK"),
